@@ -294,10 +294,54 @@ def scn_delivery(T, case):
     T.prove("C12.delivery.a_result_seen_by_an_observer_has_reached_every_tracker_of_the_plan_chain", trk["results"] is res)
 
 
+# ------------------------------------------------------------------------------------ a tracker added through the plan keeps its options
+def cases_added(tier):
+    for what in ("best", "last"):
+        for tol in ("none", "zero", "half"):
+            yield "%s/constraint_tolerance=%s" % (what, tol), {"what": what, "tol": tol}
+
+
+def scn_added(T, case):
+    """'All tolerances including None': the tracker that Plan.add_handler creates through the built-in handler plug-in is configured
+    with exactly the options given - None (no feasibility filtering) included, not replaced by a default."""
+    from ropt.enums import EventType
+    from ropt.plan import Event
+    from ropt.results import FunctionResults
+
+    MP, MC, MD = "ropt.plan._plan", "ropt.plan._context", "ropt.plugins.plan.default"
+    if T.symbolic:
+        sh = T.shadow([MT, MU, MP, MC, MD])
+        plan_cls, ctx_cls, plug_cls = T.under_contract(sh, MP, "Plan"), sh.get(MC, "OptimizerContext"), T.under_contract(sh, MD, "DefaultPlanHandlerPlugin")
+        T.under_contract(sh, MP, "Plan.add_handler")
+        T.under_contract(sh, MD, "DefaultPlanHandlerPlugin.create")
+        # the plug-in's table of handler classes is filled when its module body runs, i.e. with the class object imported there; point
+        # it at the shadow of the same class (same source text) so that the tracker's body runs on symbolic values
+        table = sh.ns[MD].get("_RESULT_HANDLER_OBJECTS")
+        if isinstance(table, dict) and "tracker" in table:
+            table["tracker"] = sh.get(MT, "DefaultTrackerHandler")
+    else:
+        plan_cls, ctx_cls, plug_cls = T.func(MP, "Plan"), T.func(MC, "OptimizerContext"), T.func(MD, "DefaultPlanHandlerPlugin")
+    asked = []
+    pm = types.SimpleNamespace(get_plugin=lambda kind, method: asked.append((kind, method)) or plug_cls())
+    plan = plan_cls(ctx_cls(evaluator=None, plugin_manager=pm))
+    src = uuid.uuid4()
+    tol = {"none": None, "zero": 0.0, "half": 0.5}[case["tol"]]
+    hid = plan.add_handler("tracker", what=case["what"], constraint_tolerance=tol, sources={src})
+    T.prove("C12.added.handler_comes_from_the_plan_handler_plugin_of_that_name", asked == [("plan_handler", "tracker")])
+    viol = T.real("violation", (1,), lo=0.75, hi=2.0)  # infeasible for every tolerance but None
+    obj = T.real("objective", ())
+    info = types.SimpleNamespace(bound_violation=viol, linear_violation=None, nonlinear_violation=None)
+    res = FunctionResults(batch_id=None, metadata={}, evaluations=None, realizations=None, functions=types.SimpleNamespace(weighted_objective=obj), constraint_info=info)
+    plan.emit_event(Event(event_type=EventType.FINISHED_EVALUATION, config=None, source=src, data={"results": (res,)}))
+    got = plan.get(hid, "results")
+    T.prove("C12.added.tracker_filters_with_exactly_the_given_tolerance", (got is res) if tol is None else (got is None))
+
+
 SCENARIOS = [
     Scenario("tracker_step_from_any_state", scn_step, cases_step, {"quick": 10, "thorough": 60}),
     Scenario("basic_optimizer_reports_tracked", scn_basic, cases_basic, {"quick": 1, "thorough": 1}),
     Scenario("delivered_results_reach_the_tracker", scn_delivery, cases_delivery, {"quick": 1, "thorough": 3}),
+    Scenario("tracker_added_through_the_plan", scn_added, cases_added, {"quick": 2, "thorough": 5}),
 ]
 
 MANIFEST = {
